@@ -62,4 +62,19 @@ TEXTS['C15'] = {
     'technique': "Lean 4 proof (decide +kernel over generated finite tables + list lemmas) + end-to-end kwargs correspondence",
 }
 
+TEXTS['C09'] = {
+    'text': "Lean theorems over every window size and every operation sequence on a request body (reads of any amount, "
+            "seeks with any offset/whence, enable/disable anywhere, any number of rewinds): reported values + movement "
+            "while suppressed = movement of the bounded position; hence running sums in [0,size] and total = size when "
+            "suppressed stretches return to their start (botocore's protocol); a rewind takes back exactly what was "
+            "reported; through the aggregator (any threshold, any values) totals are conserved, deliveries are positive and "
+            "each running delivered total equals a raw running total; download loop: per range the sum is the bytes of the "
+            "successful attempt and every abandoned attempt is taken back exactly (S3V.Props.C02/C09 download part). "
+            "Tied to ReadFileChunk / AggregatedProgressCallback / GetObjectTask by differential correspondence; "
+            "end-to-end totals over whole transfers are judged by the scheduled explorer.",
+    'note': COMMON_NOTE + "botocore's use of the body is scripted (signal_not_transferring, signing reads, seek(0), "
+            "signal_transferring, send, rewinds); the underlying file is assumed to read fully.",
+    'technique': "Lean 4 proof (telescoping invariant over op sequences) + differential correspondence",
+}
+
 NOT_APPLICABLE = []
